@@ -210,7 +210,54 @@ def one_case(ctx, k):
         shutil.rmtree(d, ignore_errors=True)
 
 
+def dup_case(ctx, k):
+    """The same path given to two outputs, the file existing beforehand or not: either the run is refused, or every
+    read is still in that file exactly once (two writers on one path overwrite each other)."""
+    from .. import gen_cli as G
+
+    rng = ctx.rng("c04dup", k)
+    d = os.path.join(ctx.scratch, f"dup{k}")
+    os.makedirs(d, exist_ok=True)
+    try:
+        ad = G.gen_adapter(rng, 0, kinds=["a"])
+        recs, _ = G.gen_reads(rng, rng.randint(30, 120), False, [ad], maxlen=30, qual_profile="high")
+        inputs = climon.write_inputs(d, recs)
+        name = rng.choice(["dup.fastq", "dup.fq", "sub/../dup.fastq"]) if rng.random() < 0.8 else "dup.fastq.gz"
+        os.makedirs(os.path.join(d, "sub"), exist_ok=True)
+        which = rng.choice(["too-short", "too-long", "untrimmed"])
+        if which == "too-short":
+            extra = ["-m", "12", "--too-short-output", name]
+        elif which == "too-long":
+            extra = ["-M", "18", "--too-long-output", name]
+        else:
+            extra = ["--untrimmed-output", name]
+        preexisting = rng.random() < 0.6
+        if preexisting:
+            r0 = climon.run(d, ad["argv"] + ["-o", name] + inputs, tag="first", trace=False)
+            if r0.rc != 0:
+                return
+        argv = ad["argv"] + extra + ["-o", name, "--json", "rep.json"] + (["-j", "2"] if rng.random() < 0.3 else []) + inputs
+        run = climon.run(d, argv, tag="dup", trace=False)
+        ctx.count("duplicate_path_runs")
+        ctx.case(("dup", str(argv), preexisting))
+        case = climon.case_record(argv, d, inputs)
+        case["dup_k"] = k
+        if run.rc != 0:
+            ctx.count("duplicate_path_refused")
+            return
+        fo = run.records(name)
+        ids = sorted(fastx.rid(x[0]) for x in fo[1]) if fo and fo[0] != "error" else None
+        if ids != sorted(fastx.rid(r[0]) for r in recs):
+            ctx.violation("duplicate-path-clobbered", f"the path {name} was accepted for two outputs (file existed before: {preexisting}); exit 0, report says "
+                          f"{run.json_report()['read_counts']}, but the file holds {None if ids is None else len(ids)} parseable records of {len(recs)} reads; argv={argv}",
+                          case, facts=dict(preexisting=preexisting))
+    finally:
+        shutil.rmtree(d, ignore_errors=True)
+
+
 def run_shard(ctx):
+    for k in range(ctx.scale(6, 60)):
+        dup_case(ctx, ctx.shard * 100000 + k)
     for k in range(ctx.scale(150, 4000)):
         if ctx.out_of_time():
             ctx.count("stopped_on_time_budget")
@@ -227,5 +274,9 @@ def verdict_hook(merged, tier):
 
 
 def replay(ctx, case):
+    if "dup_k" in case:
+        ctx.shard = case["dup_k"] // 100000
+        dup_case(ctx, case["dup_k"])
+        return
     ctx.shard = case["k"] // 100000
     one_case(ctx, case["k"])
